@@ -751,6 +751,7 @@ DesignCustomGet(c, call) ==
 RECURSIVE DesignIterMany(_, _, _, _, _, _)
 NthView(o, kind) == IF o.k = "some" /\ kind # "elf" THEN Some([at |-> o.v.at, sv |-> IF Has(o.v, "sv") THEN o.v.sv ELSE 40]) ELSE o
 DesignStep(c0, ds, call) ==
+  IF Has(c0, "tile") THEN [o |-> TileExpect(c0.tile, call), ds |-> ds] ELSE      \* design = statement for tiled regions
   LET c == IF ds.img = "info" THEN [c0 EXCEPT !.mem = ds.built]
            ELSE IF ds.img = "header" THEN [c0 EXCEPT !.mem = ds.hbuilt] ELSE c0 IN
   CASE call.op = "use_built" ->
@@ -923,7 +924,15 @@ DesignIterMany(c, ds, it, left, cnt, prev) ==
 CEff(c, trk) ==
   IF trk.img = "info" THEN [c EXCEPT !.mem = trk.built]
   ELSE IF trk.img = "header" THEN [c EXCEPT !.mem = trk.hbuilt] ELSE c
+\* tiled regions (MB2Info): the outcome of every call of the plan follows from the tile parameters
+TileAcceptP(p, c, call, o) ==
+  CASE p = "C01" -> Controlled(o)
+    [] p = "C02" -> call.op = "load" => o = TileExpect(c.tile, call)
+    [] p = "C03" -> c.tile.v = "info" /\ call.op # "load" => o = TileExpect(c.tile, call)
+    [] p = "C19" -> c.tile.v = "elf" /\ call.op # "load" => o = TileExpect(c.tile, call)
+    [] OTHER -> TRUE
 AcceptP(p, c0, trk, call, o) ==
+  IF Has(c0, "tile") THEN TileAcceptP(p, c0, call, o) ELSE
   LET c == CEff(c0, trk) IN
   CASE p = "C01" -> C01_Accept(c, trk, call, o)
     [] p = "C02" -> C02_Accept(c, trk, call, o)
